@@ -57,6 +57,7 @@ static bool finish_chunk(zckIndex *index, zckChunk *item, char *digest,
     item->digest_uncompressed = zmalloc(index->digest_size);
     if (!item->digest || !item->digest_uncompressed) {
        free(item->digest);
+       item->digest = NULL;
        zck_log(ZCK_LOG_ERROR, "OOM in %s", __func__);
        return false;
     }
